@@ -156,12 +156,15 @@ func runC06(_ *testing.T, c c06Case) kit.Outcome {
 			s = c.Run[0]
 		}
 		prev := b.Outer.EstimatedLimit()
+		nlBefore, _ := b.noLoad()
+		b.Outer.OnSample(0, s.RTT, s.inflight(prev), true)
 		if algo == "vegas" {
-			if nl, _ := b.noLoad(); nl == 0 || s.RTT < nl {
-				absorbed++ // baseline maintenance sample: by design not a limit update (DESIGN 4/C06)
+			// baseline maintenance sample: by design not a limit update (DESIGN 4/C06) - provided the maintenance really
+			// took place: a faster sample that is swallowed *without* becoming the baseline is an ordinary sample
+			if nlAfter, _ := b.noLoad(); nlBefore == 0 || (s.RTT < nlBefore && nlAfter == s.RTT) {
+				absorbed++
 			}
 		}
-		b.Outer.OnSample(0, s.RTT, s.inflight(prev), true)
 		steps++
 		cur := b.Outer.EstimatedLimit()
 		if cur > prev {
